@@ -255,8 +255,15 @@ func c20Table(pos int, hdrBold bool, mr, mc, mask int, class string) c20Elem {
 	return e
 }
 
+// c20Table1 builds a table with a single row (a GFM table that consists of its header row only).
+func c20Table1(pos int) c20Elem {
+	e := c20Elem{Kind: "table", Label: "table1x2(header row only)"}
+	e.Cells = append(e.Cells, []c20Run{c20R(pos, 0, 0, "t"), c20R(pos, 1, 0, "t")})
+	return e
+}
+
 // part A alphabet
-const c20NA = 15
+const c20NA = 16
 
 func c20ElemA(code, pos int) c20Elem {
 	switch code {
@@ -288,6 +295,8 @@ func c20ElemA(code, pos int) c20Elem {
 		return c20Table(pos, false, -1, -1, 0, "t")
 	case 13:
 		return c20Table(pos, true, -1, -1, 0, "t")
+	case 14:
+		return c20Table1(pos)
 	}
 	return c20Elem{Kind: "empty", Label: "empty"}
 }
